@@ -156,15 +156,18 @@ def typecheck(e, path='', out=None):
 class Env(object):
     """Valuation: identifiers by name, flat little-endian byte memory (total functions)."""
 
-    def __init__(self, seed=0, ids=None, mem=None):
+    def __init__(self, seed=0, ids=None, mem=None, segmented=False):
         self.seed = seed
         self.ids = dict(ids or {})
         self.mem = dict(mem or {})      # address -> byte (explicit stores / overrides)
         self.addr_bits = 32
         self.reads = None               # optional log of (addr, nbytes)
+        # segmented: a cell qualified by a segment selector lives in the address space named by the selector's value
+        # (memory is a function of (selector, address)); off = flat model, the selector is ignored (CPU-oracle checks)
+        self.segmented = segmented
 
     def copy(self):
-        e = Env(self.seed, self.ids, self.mem)
+        e = Env(self.seed, self.ids, self.mem, self.segmented)
         e.addr_bits = self.addr_bits
         return e
 
@@ -176,18 +179,23 @@ class Env(object):
             return self.ids[name] & mask(size)
         return self._h('id', name) & mask(size)
 
-    def byte(self, addr):
+    def byte(self, addr, space=None):
         addr &= mask(self.addr_bits)
+        if space is not None:
+            k = (space, addr)
+            if k in self.mem:
+                return self.mem[k]
+            return self._h('ms', space, addr) & 0xff
         if addr in self.mem:
             return self.mem[addr]
         return self._h('m', addr) & 0xff
 
-    def load(self, addr, nbytes):
+    def load(self, addr, nbytes, space=None):
         if self.reads is not None:
             self.reads.append((addr & mask(self.addr_bits), nbytes))
         v = 0
         for i in range(nbytes):
-            v |= self.byte(addr + i) << (8 * i)
+            v |= self.byte(addr + i, space) << (8 * i)
         return v
 
     def store(self, addr, nbytes, value):
@@ -228,6 +236,9 @@ def evaluate(e, env, strict=True):
     if k == 'ExprMem':
         check_shape(e)
         a = evaluate(e.arg, env, strict)
+        if env.segmented and e.segm is not None:
+            space = evaluate(e.segm, env, strict) if hasattr(e.segm, 'visit') else repr(e.segm)
+            return env.load(a, e.size // 8, ('seg', space))
         return env.load(a, e.size // 8)
     if k == 'ExprSlice':
         check_shape(e)
